@@ -116,9 +116,14 @@ fn value_of(digits: &str) -> Option<u128> {
     t.parse::<u128>().ok()
 }
 
+/// the thread count is an option: it is given next to expressions of every output mode and with
+/// -quit (the emitted constant must not depend on them)
+const THREAD_CONTEXTS: [&str; 5] = ["", " -print0", " -name x -print -quit", " -fprint f", " -printf %p"];
+
 fn input_of(c: &Case) -> String {
     let sign = if c.sign == ' ' { String::new() } else { c.sign.to_string() };
-    format!("{} {}{}{}", c.carrier.keyword(), sign, c.digits, c.carrier.suffix())
+    let ctx = if c.carrier == Carrier::Threads { THREAD_CONTEXTS[(c.digits.len() + c.digits.bytes().map(|b| b as usize).sum::<usize>()) % THREAD_CONTEXTS.len()] } else { "" };
+    format!("{} {}{}{}{}", c.carrier.keyword(), sign, c.digits, c.carrier.suffix(), ctx)
 }
 
 fn expected_leaf(c: &Case, v: u128) -> Option<E> {
@@ -215,7 +220,17 @@ pub fn judge(c: &Case) -> Verdict {
         (true, Err(e)) => Verdict::Fail(format!("{text:?}: value {} is within the range of its field but the input was rejected: {e}", v.unwrap())),
         (true, Ok((opts, tree))) => {
             let v = v.unwrap();
-            let exp = expected_leaf(c, v).unwrap();
+            let mut exp = expected_leaf(c, v).unwrap();
+            if c.carrier == Carrier::Threads {
+                // the tree is the one of the expression that follows the option (or -true)
+                let rest = text.splitn(3, ' ').nth(2).unwrap_or("").to_string();
+                if !rest.is_empty() {
+                    match catch(|| parse(&rest)) {
+                        Ok(Ok((_, t))) => exp = from_ast(&t),
+                        _ => return Verdict::OracleBug(format!("context {rest:?} does not parse")),
+                    }
+                }
+            }
             let got = from_ast(&tree);
             if got != exp {
                 return Verdict::Fail(format!("{text:?}: expected tree {exp:?} carrying {v}, got {got:?}"));
